@@ -1,5 +1,6 @@
 """Shared machinery of ./check: scratch dirs, TLC runs, harness builds, trace replay with crash/hang
 attribution, known-finding matching, evidence and replay files.  No property logic lives here."""
+import collections
 import concurrent.futures
 import hashlib
 import json
@@ -265,6 +266,31 @@ class Ctx:
             futs = [ex.submit(self.replay, trace_file, c, **kw) for c in cfgs]
             for f in futs:
                 f.result()
+
+    def replay_sharded(self, trace_file, cfgs, shards=4, **kw):
+        """replay_all with every configuration split over several replayer processes (slow backends: purego pairings)."""
+        lines = list(_lines(trace_file))
+        files = []
+        for i in range(shards):
+            f = "%s.shard%d" % (trace_file, i)
+            with open(f, "w") as fh:
+                fh.writelines(l if l.endswith("\n") else l + "\n" for l in lines[i::shards])
+            if lines[i::shards]:
+                files.append(f)
+        for c in cfgs:
+            self.build("replay", tuple(c.get("tags", ("verif",))))
+        tasks = [(dict(c, label="%s#%d" % (c["label"], i)), f) for c in cfgs for i, f in enumerate(files)]
+        with concurrent.futures.ThreadPoolExecutor(max_workers=min(len(tasks), max(2, NCPU - 2))) as ex:
+            futs = [ex.submit(self.replay, f, c, **kw) for c, f in tasks]
+            for fu in futs:
+                fu.result()
+        merged = collections.Counter()
+        for k, v in self.per_cfg.items():
+            merged[k.split("#")[0]] += v
+        self.per_cfg = dict(merged)
+        for f in self.fails:
+            f["cfg"] = f["cfg"].split("#")[0]
+            f["cfgspec"]["label"] = f["cfgspec"]["label"].split("#")[0]
 
     def binding_guard(self, trace_file, cfg, field="exp"):
         """A deliberately wrong expectation must be rejected by the replayer, else the binding is broken."""
